@@ -80,6 +80,28 @@ func generate(dir string, p *synth.Program, sets bool) (files map[string]string,
 			}
 		}
 	}
+	// parameter names of the exported functions: custom queries are called by
+	// the names of their placeholders, whatever order the signature lists them in
+	b.WriteString("\t\t},\n\t\tParams: map[string][]string{\n")
+	for _, fd := range decls {
+		if fd.Recv != nil || !ast.IsExported(fd.Name.Name) || fd.Type.Params == nil {
+			continue
+		}
+		var names []string
+		for _, f := range fd.Type.Params.List {
+			if len(f.Names) == 0 {
+				names = append(names, "_")
+			}
+			for _, n := range f.Names {
+				names = append(names, n.Name)
+			}
+		}
+		fmt.Fprintf(&b, "\t\t\t%q: {", fd.Name.Name)
+		for _, n := range names {
+			fmt.Fprintf(&b, "%q, ", n)
+		}
+		b.WriteString("},\n")
+	}
 	b.WriteString("\t\t},\n\t\tTypes: map[string]any{\n")
 	for _, t := range p.Tables {
 		fmt.Fprintf(&b, "\t\t\t%q: %s{},\n", t.Name, t.Name)
